@@ -244,6 +244,8 @@ type cliPC struct {
 	onSend   func(pc *cliPC, n int) // called with mu held before packet number n (1-based) is written
 	pick     func(n int, k int) int // which of the k live carriers takes packet n
 	foreign  func(p []byte) bool    // optional: reports a downstream packet that cannot belong to this session
+	// afterFirstEcho, if set, is called by the session once it has read the echo of the first half of its payload (without mu held)
+	afterFirstEcho func()
 }
 
 func newCliPC() *cliPC {
@@ -426,7 +428,7 @@ func schedules() []schedule {
 				return "", err
 			}
 			c0.close()
-			time.Sleep(300 * time.Millisecond)
+			time.Sleep(1500 * time.Millisecond) // the server has long dealt with the first carrier when the second one arrives
 			c, err := mustDial(s, ip1, prefix)
 			if err != nil {
 				return "", err
@@ -435,19 +437,21 @@ func schedules() []schedule {
 			return ip1, nil
 		}},
 		{"later-carrier-from-other-address", func(s *t2server, pc *cliPC, prefix []byte, ip1, ip2 string) (string, error) {
-			// the session is established over a carrier from ip1; from the 4th packet on it is carried by
-			// a carrier that presents ip2: the accepted connection keeps the address of its establishment
+			// the session is established over a carrier from ip1; after the first echo it is carried by a
+			// carrier that presents ip2: the accepted connection keeps the address of its establishment
 			c, err := mustDial(s, ip1, prefix)
 			if err != nil {
 				return "", err
 			}
 			pc.attach(c)
-			pc.onSend = func(pc *cliPC, n int) {
-				if n == 4 {
-					pc.carriers[0].close()
-					if c2, err := mustDial(s, ip2, prefix); err == nil {
-						pc.attach(c2)
-					}
+			// the switch happens once the client has read the first echoed bytes: by then the bridge has
+			// accepted the connection and read its address (real time does not decide the order)
+			pc.afterFirstEcho = func() {
+				pc.mu.Lock()
+				defer pc.mu.Unlock()
+				pc.carriers[0].close()
+				if c2, err := mustDial(s, ip2, prefix); err == nil {
+					pc.attach(c2)
 				}
 			}
 			return ip1, nil
@@ -558,6 +562,25 @@ func runSessionAt(s *t2server, sc schedule, tag [8]byte, size int, ip1, ip2 stri
 	var rerr, werr error
 	go func() {
 		defer close(done)
+		if pc.afterFirstEcho != nil && len(res.payload) >= 2 {
+			// two phases: first half and its echo, the hook, the rest
+			h := len(res.payload) / 2
+			if _, werr = st.Write(append(append([]byte{}, tag[:]...), res.payload[:h]...)); werr != nil {
+				return
+			}
+			if _, rerr = io.ReadFull(st, got[:h]); rerr != nil {
+				return
+			}
+			pc.afterFirstEcho()
+			wdone := make(chan struct{})
+			go func() {
+				defer close(wdone)
+				_, werr = st.Write(res.payload[h:])
+			}()
+			_, rerr = io.ReadFull(st, got[h:])
+			<-wdone
+			return
+		}
 		wdone := make(chan struct{})
 		go func() {
 			defer close(wdone)
@@ -589,7 +612,14 @@ func runSessionAt(s *t2server, sc schedule, tag [8]byte, size int, ip1, ip2 stri
 func judgeAccepted(r *en.R, s *t2server, sessions []*sessResult, desc interface{}) {
 	acc := s.snapshot()
 	byTag := map[[8]byte][]acceptedConn{}
+	allComplete := true
+	for _, x := range sessions {
+		allComplete = allComplete && x.infraErr == nil && !x.timedOut && x.failSig == ""
+	}
 	for _, a := range acc {
+		if !a.gotTag && !allComplete {
+			continue // a session that did not finish may have been accepted without its first bytes having arrived yet
+		}
 		if !a.gotTag {
 			r.Fail("accept:connection-without-session", fmt.Sprintf("the listener produced a connection (client address %q) that never carried a session's first bytes", a.remote), desc)
 			continue
